@@ -425,15 +425,17 @@ func init() {
 		c07Timestamp(r)
 	}
 	props["C08"] = func(r *Result, d *drv.Driver, tier string, seed int64, replay string) {
-		r.Rule = sessRule("C08 oracle: each registered item invoked exactly once in order with its payload; each item's status/reason/message/payload is its own handler's outcome; the process survives (all runs are in-process); plus batches in which a handler panics with values hostile to rendering (panicking Error/String methods, typed nil errors).")
+		r.Rule = sessRule("C08 oracle: each registered item invoked exactly once in order with its payload; each item's status/reason/message/payload is its own handler's outcome; the process survives (all runs are in-process); plus batches in which a handler panics with values hostile to rendering (panicking Error/String methods, typed nil errors), and batches in which a handler returns a first result together with its error (half-filled, typed nil, unencodable).")
 		b, p := sizes(tier)
 		sessionCorrespondence(r, d, seed*31+8, b, p, scriptOpts{maxArr: 6, maxItems: 5}, 150*time.Millisecond, oracleC08)
 		c08EvilPanics(r)
+		c08ValueWithError(r)
 	}
 	props["C09"] = func(r *Result, d *drv.Driver, tier string, seed int64, replay string) {
-		r.Rule = sessRule("C09 oracle: no call/response after a failed session auth; no call for rejected or uncheckable credentials; every call sees its own connection's session id/auth and its own request's auth value.")
+		r.Rule = sessRule("C09 oracle: no call/response after a failed session auth; no call for rejected or uncheckable credentials; every call sees its own connection's session id/auth and its own request's auth value; plus one long-lived connection across a replacement of the request-authentication callback (rejecting / nil / other value): the callback in force when the request arrives decides.")
 		b, p := sizes(tier)
 		sessionCorrespondence(r, d, seed*31+9, b, p+2, scriptOpts{maxArr: 8, maxItems: 3, credHeavy: true}, 150*time.Millisecond, oracleC09)
+		c09Reconfigure(r)
 		// the same on a single P: a burst of queued connections is accepted back to back before any session goroutine
 		// gets to run, so anything a session reads late from the accept loop's variables is read after the loop moved on
 		old := runtime.GOMAXPROCS(1)
@@ -447,11 +449,12 @@ func init() {
 		sessionCorrespondence(r, d, seed*31+10, b, p+2, scriptOpts{maxArr: 5, maxItems: 3, allowStall: true}, 60*time.Millisecond, oracleC10)
 	}
 	props["C15"] = func(r *Result, d *drv.Driver, tier string, seed int64, replay string) {
-		r.Rule = sessRule("C15 oracle: with ReadTimeout every wait for a request is immediately preceded by a fresh read deadline, with WriteTimeout every response by a fresh write deadline, with zero timeouts no deadline is ever set; a peer stalling inside a request is disconnected when the real deadline (60 ms) expires; plus the same rules observed on real TLS connections (handshake included) for every zero/non-zero combination of the two timeouts, on the server side and on the Client side.")
+		r.Rule = sessRule("C15 oracle: with ReadTimeout every wait for a request is immediately preceded by a fresh read deadline, with WriteTimeout every response by a fresh write deadline, with zero timeouts no deadline is ever set; a peer stalling inside a request is disconnected when the real deadline (60 ms) expires; plus the same rules observed on real TLS connections (handshake included) for every zero/non-zero combination of the two timeouts, on the server side and on the Client side; plus peers falling silent before the first request, at a message boundary after 1..3 exchanges, and inside the next item header or body (plain and TLS): the server must hang up by itself at the deadline.")
 		b, p := sizes(tier)
 		sessionCorrespondence(r, d, seed*31+15, b, p, scriptOpts{maxArr: 8, maxItems: 2, allowStall: true}, 60*time.Millisecond, oracleC15)
 		c15TLS(r, d)
 		c15Client(r)
 		c15Partial(r)
+		c15Idle(r)
 	}
 }
